@@ -70,14 +70,36 @@ func zzC20_find() {
 		m.AddAVP(a)
 	}
 	code := vU32("query")
+	// the query is given by number (uint32 or int) or by name; a name (and an int) resolves through the
+	// message's dictionary, whose answer is symbolic
+	var q interface{} = code
+	switch vChoice("querykind", 3) {
+	case 1:
+		q = int(code)
+	case 2:
+		q = "Q"
+	}
+	if _, isU32 := q.(uint32); !isU32 {
+		da, derr := d.FindAVPWithVendor(app, q, 0)
+		if derr != nil {
+			// the dictionary cannot resolve the query: an error, never some AVP
+			f, e1 := m.FindAVP(q, 0)
+			fs, e2 := m.FindAVPs(q, 0)
+			fp, e3 := m.FindAVPsWithPath([]interface{}{q}, 0)
+			vAssert(e1 != nil && f == nil && e2 != nil && len(fs) == 0 && e3 != nil && len(fp) == 0, "an unresolvable name yields an error, never a different AVP")
+			vReach("C20_find")
+			return
+		}
+		code = da.Code
+	}
 	want := zzRefWalk(m.AVP, code, nil)
-	first, err := m.FindAVP(code, 0)
+	first, err := m.FindAVP(q, 0)
 	if len(want) == 0 {
 		vAssert(err != nil && first == nil, "absent AVP yields an error, never a different AVP")
 	} else {
 		vAssert(err == nil && first == want[0], "FindAVP returns the first AVP in depth-first document order")
 	}
-	all, err2 := m.FindAVPs(code, 0)
+	all, err2 := m.FindAVPs(q, 0)
 	vObserve("found", uint64(len(all)))
 	vObserve("first", zzB2U(first != nil))
 	if len(want) == 0 {
@@ -97,6 +119,10 @@ func zzC20_find() {
 	for i := range path {
 		path[i] = vU32("pathcode")
 		ipath[i] = path[i]
+	}
+	if _, isU32 := q.(uint32); !isU32 {
+		// the path's first element given the same way as the query (by int / by name)
+		path[0], ipath[0] = code, q
 	}
 	wantp := zzRefPath(m.AVP, path)
 	gotp, err3 := m.FindAVPsWithPath(ipath, 0)
